@@ -971,3 +971,80 @@ func ruleR14_10(w *World, r *Report) {
 	})
 	r.Check(bad == "" && n > 0, "ConvertToJSONSupportedValue/no container built from nil", u.Pos(fn.Pos()), "every returned slice starts allocated (or is the argument)", "the slice returned at "+bad+" starts from nil: an empty list is converted to nil, travels as null and arrives as a tombstone - the key is missing (Map) or the element is dead (List) on every other replica")
 }
+
+// marshalsJSON: fn (or an orda function it calls, two levels) calls encoding/json.Marshal.
+func marshalsJSON(fn *ssa.Function) bool {
+	m, _ := jsonRoundTrip(fn, 1, map[*ssa.Function]bool{})
+	return m
+}
+
+// R03.18 a Map or List value is known to be encodable before it is applied
+func ruleR03_18(w *World, r *Report) {
+	u := w.Client()
+	r.Rule("R03.18", "Map.Put, List.InsertMany and List.Update make their operation only after a check that encodes the value(s) with encoding/json returned no error: a value JSON cannot express (NaN, an infinity, a channel) would be applied locally and then panic when the operation is encoded for the transaction", 3)
+	ctors := map[string]bool{"NewPutOperation": true, "NewInsertOperation": true, "NewUpdateOperation": true}
+	n := 0
+	for _, fn := range u.ordaFuncs(func(p string) bool { return p == pOrda }) {
+		root := flatRoot(fn)
+		if rn := recvNameOfFn(root); rn != "ordaMap" && rn != "list" {
+			continue
+		}
+		for _, c := range ownCallsIn(fn) {
+			cal := staticCallee(c)
+			if cal == nil || cal.Pkg == nil || cal.Pkg.Pkg.Path() != pOperations || !ctors[cal.Name()] {
+				continue
+			}
+			n++
+			paths, ok := reachingLitsFlat(root, c.(ssa.Instruction), 0)
+			good := ok && len(paths) > 0
+			for _, p := range paths {
+				checked := false
+				for _, l := range p {
+					if l.Kind != "cmp" || l.Op != token.EQL {
+						continue
+					}
+					for _, side := range []ssa.Value{l.X, l.Y} {
+						if ex := errSourceCall(side); ex != nil {
+							if hf := staticCallee(ex); hf != nil && marshalsJSON(hf) {
+								checked = true
+							}
+						}
+					}
+				}
+				good = good && checked
+			}
+			r.Check(good, fnName(root)+"/"+strings.TrimPrefix(cal.Name(), "New")+" value encodable", u.Pos(c.Pos()), "err == nil of a check that marshals the value", "the operation is made from a value that was never tried against encoding/json: NaN or an infinity (also nested in a slice) is applied to the local state and then panics in the encoder when the transaction is delivered - the call neither returns an error nor leaves the state unchanged")
+		}
+	}
+	if n < 3 {
+		r.Lost(fmt.Sprintf("constructors of Map/List value operations in the client API (found %d)", n))
+	}
+}
+
+// R03.19 the null predicate looks behind pointers
+func ruleR03_19(w *World, r *Report) {
+	u := w.Client()
+	r.Rule("R03.19", "types.IsNullValue follows pointers and interfaces down to the value they lead to (Elem in a loop, or a recursive call) before it asks whether a slice or map is nil: a pointer to a nil slice encodes as null like the nil slice itself", 1)
+	fn := u.Fn(pTypes, "", "IsNullValue")
+	if fn == nil {
+		r.Lost("types.IsNullValue")
+		return
+	}
+	descends := false
+	forEachInstr(fn, func(in ssa.Instruction) {
+		c, ok := in.(*ssa.Call)
+		if !ok {
+			return
+		}
+		if calleeName(c) == "Elem" && inLoop(c.Block()) {
+			descends = true
+		}
+		if staticCallee(c) == fn {
+			descends = true
+		}
+		if f := staticCallee(c); f != nil && f.Pkg != nil && f.Pkg.Pkg.Path() == "reflect" && f.Name() == "Indirect" && inLoop(c.Block()) {
+			descends = true
+		}
+	})
+	r.Check(descends, "types.IsNullValue/looks behind pointers", u.Pos(fn.Pos()), "Elem() in a loop or a recursive call", "IsNullValue tests only the value it is handed: a pointer to a nil slice or map (or a pointer to a nil pointer) passes, is held as a live element by the issuing replica and arrives as null - a tombstone - everywhere else")
+}
